@@ -762,7 +762,8 @@ def bytecode_projects(seed, n):
     rnd = random.Random(9000 + seed)
     out = []
     for idx in range(n):
-        k = 2 + (idx % 3)                                   # middles
+        k = 3 + (idx % 3)                                   # middles: with the shared modules at least four required modules
+        first_use_differs = idx % 4 == 3                    # main names its modules in another order than it imports them
         two_shared = rnd.random() < 0.4
         chain = rnd.random() < 0.4                         # shared imports a base module
         direct = idx % 2 == 0                               # main also imports shared itself
@@ -793,11 +794,11 @@ def bytecode_projects(seed, n):
         order = mids[:]
         rnd.shuffle(order)
         main = "needs std.io\n"
+        # the middles in a random order, then the shared modules; main NAMES them in the same order (the bytecode records
+        # a module where the program first names it) unless first_use_differs
         imports = order + (shared if direct else [])
-        rnd.shuffle(imports)
         main += "".join(f"needs {x}\n" for x in imports) + 'io.println("I:main")\n'
-        expect_vals = collections.defaultdict(list)
-        for m in mids:
+        for m in (list(reversed(order)) if first_use_differs else order):
             for sh in uses[m]:
                 main += f'io.println("G:{sh}")\nio.println({m}.got_{m}_{sh}())\n'
         if direct:
@@ -806,7 +807,8 @@ def bytecode_projects(seed, n):
         files["main.aelys"] = main
         per_shared = {sh: sum(1 for m in mids if sh in uses[m]) for sh in shared}
         out.append({"name": f"bc{seed}-{idx}", "files": files, "modules": sorted(set(["main"] + mids + shared + (["base"] if chain else []))),
-                    "per_shared": per_shared, "direct": direct, "shape": f"{k} middles, shared {shared}, chain {chain}, main imports shared {direct}, "
+                    "per_shared": per_shared, "direct": direct, "first_use_differs": first_use_differs,
+                    "shape": f"{'main names its modules in reverse import order, ' if first_use_differs else ''}{k} middles, shared {shared}, chain {chain}, main imports shared {direct}, "
                     f"a middle imports a middle {nested_mid}"})
     return out
 
@@ -859,7 +861,9 @@ def bytecode_route(ctx, stats, only=None):
                 if rc_c != 0 or not os.path.exists(os.path.join(d, art)):
                     runs[kind] = (rc_c or 1, "[%s failed] %s" % (cmd, out_c[-400:]))
                     continue
-                runs[kind] = vlib.sh([cli, "run", art], cwd=d, timeout=60)
+                # several processes: an order taken from a hash set changes from process to process
+                for rep_i in range(3 if kind == "avbc" else 2):
+                    runs[kind if rep_i == 0 else "%s#%d" % (kind, rep_i + 1)] = vlib.sh([cli, "run", art], cwd=d, timeout=60)
             stats["bytecode_projects"] += 1
             for kind, (rc, out) in runs.items():
                 stats["bytecode_runs"] += 1
@@ -868,14 +872,26 @@ def bytecode_route(ctx, stats, only=None):
                     fails.append(("bytecode:run-failed" if kind != "source" else "unexpected-outcome", f"exit {rc}: {out[-300:]}"))
                 else:
                     fails = bytecode_oracle(proj, out)
-                    if kind != "source" and runs["source"][0] == 0 and not fails and sorted(out.splitlines()) != sorted(runs["source"][1].splitlines()):
-                        fails.append(("bytecode:differs-from-source", "the bytecode run prints other lines than the source run"))
+                    if kind != "source" and runs["source"][0] == 0 and not fails and out.splitlines() != runs["source"][1].splitlines():
+                        if sorted(out.splitlines()) != sorted(runs["source"][1].splitlines()) and \
+                                [l for l in out.splitlines() if l.startswith("I:")] == [l for l in runs["source"][1].splitlines() if l.startswith("I:")]:
+                            fails.append(("bytecode:differs-from-source", "the bytecode run prints other lines than the source run"))
+                        else:
+                            src_order = [l[2:] for l in runs["source"][1].splitlines() if l.startswith("I:")]
+                            bc_order = [l[2:] for l in out.splitlines() if l.startswith("I:")]
+                            others = [o for k2, (r2, o) in runs.items() if k2.split("#")[0] == kind.split("#")[0] and r2 == 0]
+                            unstable = len({tuple(l for l in o.splitlines() if l.startswith("I:")) for o in others}) > 1
+                            fails.append(("bytecode:init-order-unstable" if unstable else
+                                          ("bytecode:init-order-first-use" if proj.get("first_use_differs") else "bytecode:init-order-differs-from-source"),
+                                          f"the modules initialise in the order {bc_order}, the source run (the order of the `needs` statements) in {src_order}"
+                                          + ("; the order changes from one process to the next" if unstable else "")
+                                          + "; the values the importers take from the shared counters follow that order"))
                 for sig, what in fails:
                     sig = sig if kind != "source" else sig.replace("bytecode:", "source:")
                     per_sig[sig] += 1
                     stats["oracle_failures"][sig] += 1
                     if per_sig[sig] <= 2:
-                        ctx.violation(sig, f"`aelys-cli run main.{kind if kind != 'source' else 'aelys'}` ({proj['shape']}): {what}",
+                        ctx.violation(sig, f"`aelys-cli run main.{kind.split('#')[0] if kind != 'source' else 'aelys'}` ({proj['shape']}): {what}",
                                       {"project": proj, "route": kind, "output": out[-1500:], "source_run_output": runs["source"][1][-1500:],
                                        "files": "write project.files into a directory; aelys-cli compile|asm main.aelys; aelys-cli run main.avbc|main.aasm"})
     finally:
